@@ -190,14 +190,14 @@ impl<'a> AnalyzeContext<'a, '_> {
 
         let mut kind = to_kind(signature);
         if let Some(map) = generic_map {
-            match kind {
+            kind = match kind {
                 Overloaded::SubprogramDecl(signature) => {
-                    kind = Overloaded::UninstSubprogramDecl(signature, map)
+                    Overloaded::UninstSubprogramDecl(signature, map)
                 }
-                Overloaded::Subprogram(signature) => {
-                    kind = Overloaded::UninstSubprogram(signature, map)
-                }
-                _ => unreachable!(),
+                Overloaded::Subprogram(signature) => Overloaded::UninstSubprogram(signature, map),
+                // A generic clause is only allowed for subprogram declarations and bodies.
+                // Other kinds (such as interface subprograms) are kept as they are.
+                other => other,
             }
         }
 
